@@ -95,7 +95,10 @@ mixed_text = st.text(alphabet=MIXED, max_size=400)
 uni_text = st.text(alphabet=st.characters(min_codepoint=4, blacklist_categories=("Cs",)), max_size=120)
 # mostly nucleotides with a few arbitrary characters sprinkled in
 sprinkled = st.lists(st.one_of(st.text(alphabet=NUC, min_size=1, max_size=40), st.characters(min_codepoint=4, blacklist_categories=("Cs",))), max_size=30).map("".join)
-any_text = st.one_of(nuc_text, mixed_text, uni_text, sprinkled)
+# the code points U+0000..U+0003: the core's k-mer tables read the raw bytes 0-3 as pre-encoded bases while its
+# CGR and oligo routines do not; whatever the core does, the binding must do the same (differential oracle)
+raw_sprinkled = st.lists(st.one_of(st.text(alphabet=NUC, min_size=1, max_size=30), st.sampled_from(["\x00", "\x01", "\x02", "\x03"])), min_size=1, max_size=20).map("".join)
+any_text = st.one_of(nuc_text, mixed_text, uni_text, sprinkled, raw_sprinkled)
 
 
 def long_text(w):
@@ -355,7 +358,7 @@ def drivers():
         "to-acgt": (k_st.flatmap(lambda k: st.fixed_dictionaries({"k": st.just(k), "x": st.one_of(st.integers(0, 4 ** k - 1), st.sampled_from([0, 4 ** k - 1]))})), 0.05),
         "minimiser-iterator": (wm_st().flatmap(lambda wm: st.fixed_dictionaries({"seq": st.one_of(any_text, long_text(wm[0])), "w": st.just(wm[0]), "m": st.just(wm[1])})), 0.22),
         "oligo": (st.fixed_dictionaries({"seqs": batch_st(any_text), "k": st.integers(1, 6), "norm": st.booleans()}), 0.17),
-        "cgr": (st.fixed_dictionaries({"seqs": batch_st(st.one_of(nuc_text, nuc_text, nuc_text, sprinkled)), "s": S_ST}), 0.17),
+        "cgr": (st.fixed_dictionaries({"seqs": batch_st(st.one_of(nuc_text, nuc_text, nuc_text, sprinkled, raw_sprinkled)), "s": S_ST}), 0.17),
         "long-strings": (st.fixed_dictionaries({
             "unit": st.one_of(st.text(alphabet=NUC + "\u00e9\u20ac", min_size=1, max_size=40), st.text(alphabet="ACGT\u00e9", min_size=1, max_size=9), st.sampled_from(["\u00e9", "A\u00e9", "ACG\U0001F441T", "acgtN"])),
             "bytes": st.sampled_from([1 << 20, (1 << 20) + 7, 1_300_000, 2_100_000]),
